@@ -268,3 +268,127 @@ theorem listDir_eq_listNodes (fs : FS) (abs : List Comp) (root : FPath) (f : Nat
     simpa using this
 
 end Rj
+
+namespace Rj
+open FS
+
+/-- how the source doer's entry reaches the destination doer -/
+def sentryOf : Node → Option SEntry
+  | .file b (.at m) => some (.file b m)
+  | .folder => some .folder
+  | .symlink text => some (.link (readLinkB text))
+  | _ => none
+
+/-- the source as the boss sees it: what lies at a relative path below the source root -/
+def srcOfFS (S : FS) (rs : FPath) (p : FPath) : Option SEntry := (S.get (rs ++ p)).bind sentryOf
+
+/-- the source listing: the model's own listing of the source root, paths made relative -/
+def lsOfFS (S : FS) (rs : FPath) (f : Nat) : List (FPath × SEntry) :=
+  (listNodes S f rs).filterMap fun e => (sentryOf e.2).map fun s => (e.1.drop rs.length, s)
+
+/-- what is assumed of a source tree: below its root only files with a time stamp, folders and links
+whose text can be written on the destination; tree-closed; fuel for its depth -/
+structure SrcTreeOk (S : FS) (rs : FPath) (f : Nat) : Prop where
+  wf : S.Wf
+  kinds : ∀ p n, p ≠ [] → S.get (rs ++ p) = some n → (sentryOf n).isSome
+  closed : ∀ p, p ≠ [] → S.get (rs ++ p) ≠ none → p.dropLast ≠ [] → S.get (rs ++ p.dropLast) = some .folder
+  fuel : ∀ p, S.get (rs ++ p) ≠ none → p.length ≤ f
+  links : ∀ p text, S.get (rs ++ p) = some (.symlink text) →
+    writeLinkB '/' (readLinkB text) ≠ [] ∧ (0 : UInt8) ∉ writeLinkB '/' (readLinkB text)
+
+theorem srcWF_of_tree (S : FS) (rs : FPath) (f : Nat) (h : SrcTreeOk S rs f) :
+    SrcWF (srcOfFS S rs) (lsOfFS S rs f) := by
+  have hfold : ∀ p n, p ≠ [] → S.get (rs ++ p) = some n →
+      ∀ k, 0 < k → k < p.length → S.get (rs ++ p.take k) = some .folder := by
+    intro p n hp hg k hk0 hk
+    have := prefixes_folders (fun q => if q = [] then some Node.folder else S.get (rs ++ q)) Node.folder
+      (fun q hq hq' => by
+        by_cases hd : q.dropLast = []
+        · simp [hd]
+        · simp only [hd, ↓reduceIte]
+          simp only [hq, ↓reduceIte] at hq'
+          exact h.closed q hq hq' hd) p (by simp [hp, hg]) k hk
+    have hne : p.take k ≠ [] := by
+      intro e
+      have := congrArg List.length e
+      rw [List.length_take, List.length_nil] at this; omega
+    simpa [hne] using this
+  refine ⟨?_, ?_, ?_, ?_⟩
+  · -- closed
+    intro p hp hsp hd
+    simp only [srcOfFS] at hsp ⊢
+    have hg : S.get (rs ++ p) ≠ none := by
+      intro e; rw [e] at hsp; simp at hsp
+    rw [h.closed p hp hg hd]; rfl
+  · -- listed
+    intro p e
+    simp only [lsOfFS, List.mem_filterMap, srcOfFS]
+    constructor
+    · rintro ⟨⟨q, n⟩, hmem, hmap⟩
+      obtain ⟨g1, ⟨t, ht⟩, g3, -⟩ := listNodes_sound S h.wf f rs q n hmem
+      subst ht
+      cases hs : sentryOf n with
+      | none => simp [hs] at hmap
+      | some s =>
+        simp only [hs, Option.map_some, Option.some.injEq, Prod.mk.injEq, List.drop_left] at hmap
+        obtain ⟨rfl, rfl⟩ := hmap
+        refine ⟨?_, by rw [g1]; simpa using hs⟩
+        intro e1; subst e1; simp at g3
+    · rintro ⟨hp, hg⟩
+      cases hn : S.get (rs ++ p) with
+      | none => rw [hn] at hg; simp at hg
+      | some n =>
+        rw [hn] at hg
+        simp only [Option.bind_some] at hg
+        have := listNodes_complete S f rs p n hp (h.fuel p (by rw [hn]; simp)) hn (hfold p n hp hn)
+        exact ⟨(rs ++ p, n), this, by simp [hg]⟩
+  · -- parents first
+    unfold lsOfFS
+    have hpf := listNodes_parentFirst S h.wf f rs
+    have hshape : ∀ a ∈ listNodes S f rs, ∃ t, a.1 = rs ++ t := by
+      intro a ha
+      obtain ⟨-, ⟨t, ht⟩, -, -⟩ := listNodes_sound S h.wf f rs a.1 a.2 ha
+      exact ⟨t, ht.symm⟩
+    generalize listNodes S f rs = L at hpf hshape
+    induction L with
+    | nil => simp
+    | cons a rest ih =>
+      rw [List.pairwise_cons] at hpf
+      have ihr := ih hpf.2 (fun x hx => hshape x (List.mem_cons_of_mem _ hx))
+      simp only [List.filterMap_cons]
+      cases hs : sentryOf a.2 with
+      | none => simpa [hs] using ihr
+      | some s =>
+        simp only [hs, Option.map_some]
+        rw [List.pairwise_cons]
+        refine ⟨?_, ihr⟩
+        intro b hb hpre
+        obtain ⟨c, hc, hmap⟩ := List.mem_filterMap.mp hb
+        cases hsc : sentryOf c.2 with
+        | none => simp [hsc] at hmap
+        | some sc =>
+          simp only [hsc, Option.map_some, Option.some.injEq] at hmap
+          subst hmap
+          obtain ⟨ta, hta⟩ := hshape a (by simp)
+          obtain ⟨tc, htc⟩ := hshape c (List.mem_cons_of_mem _ hc)
+          apply hpf.1 c hc
+          simp only [hta, htc, List.drop_left] at hpre ⊢
+          exact (List.prefix_append_right_inj rs).mpr hpre
+  · -- links
+    intro p t hsp
+    simp only [srcOfFS] at hsp
+    cases hn : S.get (rs ++ p) with
+    | none => rw [hn] at hsp; simp at hsp
+    | some n =>
+      rw [hn] at hsp
+      simp only [Option.bind_some] at hsp
+      cases n with
+      | symlink text =>
+        simp only [sentryOf, Option.some.injEq, SEntry.link.injEq] at hsp
+        subst hsp
+        exact ⟨⟨text, rfl⟩, h.links p text hn⟩
+      | file b m => cases m <;> simp [sentryOf] at hsp
+      | folder => simp [sentryOf] at hsp
+      | special => simp [sentryOf] at hsp
+
+end Rj
